@@ -143,9 +143,8 @@ def gen_def(args):
             data = [rnd.choice(SPECIAL) for _ in range(size)]
         else:
             data = [rnd.choice((rnd.randrange(32, 127), rnd.randrange(256), rnd.randrange(160, 255))) for _ in range(size)]
-        mem[start:start + size] = data
         hexa, lower = rnd.random() < 0.5, rnd.random() < 0.5
-        d = Disassembler(mem, _cfg(hexa, lower, [], True, rnd.choice((1, 3, 8)), rnd.choice((1, 4, 66)), rnd.choice((1, 2))))
+        sizes = [rnd.choice((1, 3, 8)), rnd.choice((1, 4, 66)), rnd.choice((1, 2))]
         subl = []
         if rnd.random() < 0.35:
             subl = [(0, rnd.choice(BASES1))]
@@ -161,25 +160,36 @@ def gen_def(args):
         if kind == 'defs':
             # a negative *size* is not a meaningful signed operand: base m is used for the fill value only
             subl = [(rnd.choice((0, size)), rnd.choice(BASES1[:5]))] + ([(0, rnd.choice(BASES1))] if rnd.random() < 0.5 else [])
-        c = {'kind': 'def', 'key': kind, 'stmt': kind, 'start': start, 'data': data, 'hex': int(hexa), 'lower': int(lower),
-             'sublengths': [list(s) for s in subl], 'texts': [], 'reasm': [], 'covers': 1, 'exc': ''}
-        try:
-            f = {'defb': d.defb_range, 'defm': d.defm_range, 'defw': d.defw_range, 'defs': d.defs_range}[kind]
-            out, carried = [], []
-            for ins in f(start, start + size, tuple(subl)):
-                c['texts'].append(ins.operation)
-                carried += [int(b) for b in ins.bytes]
-                got = asm.assemble(ins.operation, ins.address)
-                out += [int(b) for b in (got or ())]
-            c['reasm'] = out
-            # the statements carry their own byte lists (an odd-length DEFW range is extended by one byte)
-            c['covers'] = 1 if carried[:size] == data else 0
-            c['data'] = carried
-        except Exception as e:
-            c['exc'] = '%s: %s' % (type(e).__name__, e)
-        cases.append(c)
-        mem[start:start + size] = [0] * size
+        cases.append(def_case(asm, mem, kind, start, data, hexa, lower, subl, sizes))
     return cases
+
+
+def def_case(asm, mem, kind, start, data, hexa, lower, subl, sizes):
+    """One DEFB/DEFM/DEFW/DEFS range: `data` at `start` rendered with the sublengths `subl` by a Disassembler configured with
+    sizes = [DefbSize, DefmSize, DefwSize], every statement assembled again.  `input` is what --replay needs."""
+    from skoolkit.disassembler import Disassembler
+    size = len(data)
+    mem[start:start + size] = data
+    d = Disassembler(mem, _cfg(hexa, lower, [], True, *sizes))
+    c = {'kind': 'def', 'key': kind, 'stmt': kind, 'start': start, 'data': data, 'hex': int(hexa), 'lower': int(lower),
+         'sublengths': [list(s) for s in subl], 'texts': [], 'reasm': [], 'covers': 1, 'exc': '',
+         'input': {'data': list(data), 'sizes': list(sizes)}}
+    try:
+        f = {'defb': d.defb_range, 'defm': d.defm_range, 'defw': d.defw_range, 'defs': d.defs_range}[kind]
+        out, carried = [], []
+        for ins in f(start, start + size, tuple(tuple(s) for s in subl)):
+            c['texts'].append(ins.operation)
+            carried += [int(b) for b in ins.bytes]
+            got = asm.assemble(ins.operation, ins.address)
+            out += [int(b) for b in (got or ())]
+        c['reasm'] = out
+        # the statements carry their own byte lists (an odd-length DEFW range is extended by one byte)
+        c['covers'] = 1 if carried[:size] == data else 0
+        c['data'] = carried
+    except Exception as e:
+        c['exc'] = '%s: %s' % (type(e).__name__, e)
+    mem[start:start + size] = [0] * size
+    return c
 
 
 # ------------------------------------------------------------------ direction 2: spellings
@@ -280,32 +290,41 @@ def gen_asm(args):
                 vals[0] = '"%s"' % ''.join(rnd.choice('ab "\\,;:') for _ in range(rnd.randrange(1, 5))).replace('\\', '\\\\').replace('"', '\\"')
             text = t.format(*vals)
         text = ws(rnd, text)
-        c = {'kind': 'asm', 'key': text.split()[0].upper() if text.split() else '', 'text': text, 'addr': addr,
-             'accepted': 0, 'bytes1': [], 'text2': [], 'bytes2': [], 'exc': ''}
-        try:
-            b1 = asm.assemble(text, addr)
-            if b1:
-                c['accepted'] = 1
-                c['bytes1'] = [int(b) for b in b1]
-                if all(0 <= b < 256 for b in b1):
-                    for i, b in enumerate(b1):
-                        mem[(addr + i) % 65536] = b
-                    end = addr + len(b1)
-                    d = Disassembler(mem, _cfg(rnd.random() < 0.5, rnd.random() < 0.5, ALL_OPTS))
-                    out = []
-                    a = addr
-                    guard = 0
-                    while a < end and guard < 64:
-                        ins = d.disassemble(a % 65536, a % 65536 + 1, 'n')[0]
-                        c['text2'].append(ins.operation)
-                        got = ins.bytes if ins.variant else asm.assemble(ins.operation, ins.address)
-                        out += [int(b) for b in (got or ())]
-                        a += len(ins.bytes)
-                        guard += 1
-                    c['bytes2'] = out[:len(b1)] if a > end else out
-                    for i in range(len(b1)):
-                        mem[(addr + i) % 65536] = 0
-        except Exception as e:
-            c['exc'] = '%s: %s' % (type(e).__name__, e)
-        cases.append(c)
+        cases.append(asm_case(asm, mem, text, addr, lambda: (rnd.random() < 0.5, rnd.random() < 0.5)))
     return cases
+
+
+def asm_case(asm, mem, text, addr, pick):
+    """One spelling: assemble, disassemble what was assembled (hex / lower case of the disassembler chosen by pick(), called only
+    when there is something to disassemble, and recorded as `dis_cfg` for --replay), assemble that again."""
+    from skoolkit.disassembler import Disassembler
+    c = {'kind': 'asm', 'key': text.split()[0].upper() if text.split() else '', 'text': text, 'addr': addr,
+         'accepted': 0, 'bytes1': [], 'text2': [], 'bytes2': [], 'exc': ''}
+    try:
+        b1 = asm.assemble(text, addr)
+        if b1:
+            c['accepted'] = 1
+            c['bytes1'] = [int(b) for b in b1]
+            if all(0 <= b < 256 for b in b1):
+                for i, b in enumerate(b1):
+                    mem[(addr + i) % 65536] = b
+                end = addr + len(b1)
+                hexa, lower = pick()
+                c['dis_cfg'] = [int(hexa), int(lower)]
+                d = Disassembler(mem, _cfg(hexa, lower, ALL_OPTS))
+                out = []
+                a = addr
+                guard = 0
+                while a < end and guard < 64:
+                    ins = d.disassemble(a % 65536, a % 65536 + 1, 'n')[0]
+                    c['text2'].append(ins.operation)
+                    got = ins.bytes if ins.variant else asm.assemble(ins.operation, ins.address)
+                    out += [int(b) for b in (got or ())]
+                    a += len(ins.bytes)
+                    guard += 1
+                c['bytes2'] = out[:len(b1)] if a > end else out
+                for i in range(len(b1)):
+                    mem[(addr + i) % 65536] = 0
+    except Exception as e:
+        c['exc'] = '%s: %s' % (type(e).__name__, e)
+    return c
